@@ -5,7 +5,7 @@ CANCELCLS = r'struct cancel_operation \{'
 
 # UNIFEX_TRY { A } UNIFEX_CATCH(...) { B }  ->  { A' } if (0) { vf_catch: B }   (DESIGN 3.1, last row; not in the global table yet)
 TRY_CATCH = [(r'UNIFEX_TRY\s*\{', '{'),
-             (r'\}\s*UNIFEX_CATCH\s*\(\.\.\.\)\s*\{', '} if (0) { vf_catch:')]
+             (r'\}\s*UNIFEX_CATCH\s*\(\.\.\.\)\s*\{', '} if (0) { vf_catch: ;')]
 
 op_ctx = dict(
     cls='when_all_op',
@@ -50,7 +50,6 @@ cancel_ctx = dict(
     pre=[(r'\bop_\.', 'op_->')],
 )
 
-A_DELIVER_VALUE = 'OP, G.completed, G.channel, G.dead, G.snap, G.dv_threw'
 
 SPEC = dict(
     properties=['C01', 'C04', 'C05'],
